@@ -263,6 +263,9 @@ func diff(a, b *Snap, o DiffOpts, path string, root bool) string {
 				if a.Kids[i].ident() != b.Kids[i].ident() {
 					return p + ": nested instance replaced"
 				}
+				if !SameValue(a.S.Slots[i], b.S.Slots[i]) {
+					return fmt.Sprintf("%s: stored value changed form (%T -> %T)", p, a.S.Slots[i], b.S.Slots[i])
+				}
 				if o.Shallow {
 					continue
 				}
@@ -293,6 +296,9 @@ func diff(a, b *Snap, o DiffOpts, path string, root bool) string {
 	if a.Expr != nil {
 		if a.Expr.ident() != b.Expr.ident() {
 			return path + ".ex: nested instance replaced"
+		}
+		if !SameValue(a.S.Ex, b.S.Ex) {
+			return fmt.Sprintf("%s.ex: stored expression changed form (%T -> %T)", path, a.S.Ex, b.S.Ex)
 		}
 		if o.Shallow {
 			return ""
